@@ -39,6 +39,20 @@ def gen_scene(rnd):
     return nodes, edges, drag, rnd.randint(6, 14), dx, dy
 
 
+def with_resize(sc, rnd):
+    """after the drag, one node (mostly the dragged one: edges now bend round its corners) is resized about its centre"""
+    nodes, edges, drag, steps, dx, dy = sc
+    if rnd.random() < 0.45:
+        return sc + (-1, 0, 0)
+    rz = drag if rnd.random() < 0.6 else rnd.randrange(len(nodes))
+    w, h = nodes[rz][2], nodes[rz][3]
+    rw = rnd.choice([w, w + 8, w + 24, max(4, w - 6)])
+    rh = rnd.choice([h, h + 8, h + 24, max(4, h - 6)])
+    if (rw, rh) == (w, h):
+        rh = h + 16
+    return sc + (rz, rw, rh)
+
+
 def abutting_scene(rnd):
     """two nodes whose sides lie on one line (touching in one axis, apart in the other), an edge running through the gap between their
     facing corners, and one of them pushed towards the other across that edge: bends arrive on coincident corner positions"""
@@ -95,10 +109,11 @@ def main(tier):
         sc = abutting_scene(rnd)
         if sc:
             scenes.append(sc)
+    scenes = [with_resize(sc, rnd) for sc in scenes]
     sf = os.path.join(d, 'scenes.txt')
     with open(sf, 'w') as f:
-        for nodes, edges, drag, steps, dx, dy in scenes:
-            row = [len(nodes)] + [v for nd in nodes for v in nd] + [len(edges)] + [v for e in edges for v in e] + [drag, steps, dx, dy]
+        for nodes, edges, drag, steps, dx, dy, rz, rw, rh in scenes:
+            row = [len(nodes)] + [v for nd in nodes for v in nd] + [len(edges)] + [v for e in edges for v in e] + [drag, steps, dx, dy, rz, rw, rh]
             f.write(' '.join(map(str, row)) + '\n')
     of = os.path.join(d, 'topo.json')
     rc, out = V.run(['timeout', '1500', ht, 'run', sf, of], timeout=1600)
@@ -117,9 +132,9 @@ def main(tier):
                 m = re.search(r'expression: (.*?)(\n| \||$)', what)
                 ml = re.search(r'at line (\d+) of \S*/(\w+\.cpp)', what)
                 key = ('assertion:' + re.sub(r'[^A-Za-z0-9_>!=<.()-]+', '', m.group(1))[:50] + ('@' + ml.group(2) if ml else '')) if m else 'exception:' + what[:40]
-            nodes, edges, drag, steps, dx, dy = scenes[i - 1]
-            vd.violation(key, '%s %s nodes(x,y,w,h)=%s edges=%s drag=%d by (%d,%d) x%d' % (t, what[:150].replace('\n', ' '), nodes, edges, drag, dx, dy, steps),
-                         {'nodes': nodes, 'edges': edges, 'drag': drag, 'steps': steps, 'dx': dx, 'dy': dy, 'what': what})
+            nodes, edges, drag, steps, dx, dy, rz, rw, rh = scenes[i - 1]
+            vd.violation(key, '%s %s nodes(x,y,w,h)=%s edges=%s drag=%d by (%d,%d) x%d resize=%s' % (t, what[:150].replace('\n', ' '), nodes, edges, drag, dx, dy, steps, (rz, rw, rh) if rz >= 0 else None),
+                         {'nodes': nodes, 'edges': edges, 'drag': drag, 'steps': steps, 'dx': dx, 'dy': dy, 'resize': [rz, rw, rh], 'what': what})
     ev.cov['evaluations'] = sum(len(x['states']) for x in data['recs'])
     ev.cov['distinct_nontrivial'] = nontriv
     ev.cov['traces_validated_against_impl'] = len(data['recs'])
